@@ -221,3 +221,52 @@ func c13OneBudget(ctx *core.Ctx, r *RT) {
 		}
 	}
 }
+
+// c13StableKey — C13.R10: the registration is removed under the key it was
+// made with. The registry derives the key from the context's op id when
+// Register and again when Unregister runs; a Request that gives its context a
+// new op id in between (e.g. on the timeout branch, "so that a late response
+// cannot be mistaken") makes the deferred Unregister delete nothing — the
+// result channel stays registered for the life of the transport.
+func c13StableKey(ctx *core.Ctx, r *RT) {
+	ctx.Rule("C13.R10", "the registration key is stable: Request never assigns the op id of its context (the deferred Unregister recomputes the key from it)", 2)
+	opid := constString(r, "opIDHeader")
+	for _, fn := range r.Impl("FTransport", "Request") {
+		if len(fn.Blocks) == 0 {
+			continue
+		}
+		registers := false
+		for _, g := range localCone(fn, 2) {
+			for _, c := range ssax.Calls(g) {
+				if c.Method != nil && c.Method.Name() == "Register" {
+					registers = true
+				}
+			}
+		}
+		if !registers {
+			continue
+		}
+		bad := ""
+		for _, g := range localCone(fn, 2) {
+			for _, c := range ssax.Calls(g) {
+				if c.ShortName() == "AddRequestHeader" && len(c.Args()) == 3 {
+					if k, ok := ConstString(c.Args()[1]); ok && k == opid {
+						bad = r.IPos(c.Instr) + " (" + ssax.Name(g) + ")"
+					}
+				}
+				if c.Static != nil && c.Static.Pkg == r.Pkg && g == fn {
+					// a helper that does it for its parameter (setRequestOpID-like)
+					for _, c2 := range ssax.Calls(c.Static) {
+						if c2.ShortName() == "AddRequestHeader" && len(c2.Args()) == 3 {
+							if k, ok := ConstString(c2.Args()[1]); ok && k == opid && c.Static.Signature.Recv() == nil {
+								bad = r.IPos(c.Instr) + " (through " + ssax.Name(c.Static) + ")"
+							}
+						}
+					}
+				}
+			}
+		}
+		ctx.Check(bad == "", "C13.R10", ssax.Name(fn)+" › does not assign the op id of the context it registered", fnPos(r, fn), "no AddRequestHeader(_opid, …) in the Request cone",
+			"Request assigns a new op id to its context at "+bad+" while the context is registered: the deferred Unregister derives its key from the new id and removes nothing, so every such call leaves its result channel in the registry (and a late response is pushed into a channel nobody reads)")
+	}
+}
